@@ -426,13 +426,8 @@ func execEnc(a []string) (string, string) {
 	if l == nil {
 		return "no-such-layer", ""
 	}
-	buf := gopacket.NewSerializeBuffer()
-	// a reused buffer as in the connection: what an earlier packet left must not show
-	if junk, err := buf.PrependBytes(5); err == nil {
-		copy(junk, []byte{0xEE, 0xEE, 0xEE, 0xEE, 0xEE})
-	}
-	err := gopacket.SerializeLayers(buf, serOpts, l)
-	out := append([]byte(nil), buf.Bytes()...)
+	// fresh and reused buffers (as in a connection): what an earlier packet left must not show
+	out, err := serialize(l)
 	v := c06Judge(a[0], a[1:], out, err)
 	if err != nil {
 		return "err", v
